@@ -186,10 +186,13 @@ func (b *Batch) Encode() []byte {
 		}
 		var inner W
 		var maxTS int64
-		for i, r := range b.Recs {
+		for _, r := range b.Recs {
 			off := r.Offset
 			if b.Format == 1 {
-				off = int64(i) // relative inner offsets
+				// relative inner offsets: 0..n-1 as written by a producer; when the log cleaner removed messages from
+				// inside the set the survivors keep their distances (offset - offset of the first retained message) and
+				// the wrapper carries the absolute offset of the last one. Same as the index for consecutive records.
+				off = r.Offset - b.Recs[0].Offset
 			}
 			encMsgV01(&inner, b.Format, 0, off, r.TS, r.Key, r.Value, false)
 			if r.TS > maxTS {
